@@ -152,7 +152,10 @@ COMMON = gen.Profile("common", strings="alpha", bool_with_01=False, numeric_stri
 PUNCT_STRINGS = ["a, b", "[;,]", "x,}", "(a, b, ]", "k: v", "# no comment", "- x", "'q'", '"dq"', "a\\b", "{}", "[]", "1,", ", ",
                  "{a, b}", "<tag>", "&amp;", "// c", "/* c */", "yes", "~", "a,\n]", "%d", "$x", "a=b", "true,", "null]",
                  # Unicode line boundaries other than "\n" (a line-oriented output path must not treat them as line ends)
-                 "a\u2028b", "x\x85y", "p\u2029q"]
+                 "a\u2028b", "x\x85y", "p\u2029q",
+                 # strings that some loader's implicit typing could take for a number, a boolean, null or a date
+                 "1e3", "5E2", "12e-4", "-2e+7", "0x10", "0o17", "0b11", "1_000", "+1", ".5", "1.", "1:30", "on", "off", "No", "Y",
+                 "NULL", "Null", "TRUE", "2001-12-14", "2001-12-14T21:59:43Z", ".inf", "-.Inf", ".NaN", "0.", "00", "1,000", "=", "<<"]
 
 
 def common_data(r, depth=0, root=True):
